@@ -9,7 +9,10 @@ META = {
             "that extract/routes (go/ast) RE-EXTRACTS on every run from internal/api/{read_only,router}.go and v1|v2/routes.go, for every "
             "request (any method string, path, header); tied to the real api.NewRouter(…, readOnly) by (a) table = chi.Walk of the real "
             "router, (b) a seeded differential of dispatch vs the real router on every registered route x methods x path/body/header/query "
-            "mutations, in read-only and in control mode, and (c) an oracle counting the write calls a recording backend saw.",
+            "mutations (incl. every path parameter spelled as every static segment of the table, plain and behind an encoded slash), in read-only and in control mode, "
+            "(c) an oracle counting the write calls a recording backend saw, per request on a fresh router AND on ONE shared read-only router serving write and safe requests at once "
+            "(a deterministic interleaving at every touch of the response writer / body, and a bounded stress stream; thorough: the same under the race detector, "
+            "data races with frames in internal/api are reported). The oracle runs whether or not the translator could read the sources.",
     "note": "Trusted: Lean kernel (axioms propext/Classical.choice/Quot.sound at most); the syntactic, name-based call-graph rule of the "
             "extractor (a write is a selector named CreateTransaction|RevertTransaction|SaveMeta|DeleteMetadata reachable through functions "
             "of the packages under internal/api; functions of other packages are leaves); its allow-list of external middlewares "
@@ -81,7 +84,10 @@ def run(ctx):
     impl = {r["id"]: r["out"] for r in read_jsonl(implf)}
     model = {}
     if have_model:
-        p = run_driver("router", inp, modelf)
+        # the model answers the single requests; what several requests do to one shared router is judged by the oracle only
+        minp = ctx.path("router.model-in.jsonl")
+        write_jsonl(minp, [i for i in inputs if i.get("op") in ("walk", "req")])
+        p = run_driver("router", minp, modelf)
         if p.returncode != 0:
             ctx.l2_broken.append({"stream": "router-driver", "detail": (p.stdout + p.stderr)[-2000:]})
             have_model = False
@@ -158,14 +164,90 @@ def run(ctx):
             nontrivial += 1
         seen.add(h)
 
-    ctx.cov["evaluations"] = len(reqs)
+    # ---- L3, several requests at once on ONE read-only router: no write may reach the backend whatever runs in between
+    conc = {"interleaved_write_requests": 0, "interleaved_reader_runs": 0, "interleaved_passed_the_gate": 0,
+            "stress_write_attempts": 0, "stress_reads_served_meanwhile": 0, "stress_not_answered_READ_ONLY": 0, "stress_writes": 0}
+    for i in inputs:
+        o = impl.get(i["id"])
+        if o is None or i.get("op") not in ("interleave", "stress"):
+            continue
+        if "panic" in o:
+            ctx.l2_broken.append({"stream": "router-panic", "id": i["id"], "input": i, "impl": o})
+            continue
+        if i["op"] == "interleave":
+            conc["interleaved_write_requests"] += 1
+            for shape, key in (("alone", "ro"), ("mounted as cmd/serve.go mounts it", "ro_m")):
+                x = o.get(key) or {}
+                if "panic" in x:
+                    ctx.l2_broken.append({"stream": "router-panic", "id": i["id"], "input": i, "impl": x})
+                    continue
+                conc["interleaved_reader_runs"] += x.get("reader_runs", 0)
+                conc["interleaved_passed_the_gate"] += 0 if x.get("rejected") else 1
+                wr = [k for k in x.get("writes", []) if k in WRITE_KINDS]
+                if wr:
+                    sig = {"property": "C19", "class": "write-in-read-only", "concurrency": "interleaved", "writes": sorted(set(wr)), "method": i["method"]}
+                    if key == "ro_m":
+                        sig["shape"] = "mounted"
+                    ctx.violation(sig, "read-only router (%s), ONE instance serving two requests: %s %s executed %s on the backend (status %s) when a complete %s %s "
+                                  "ran on another goroutine each time the server touched the response writer / the body of the write request" % (
+                                      shape, i["method"], i["target"], "+".join(wr), x.get("status"), i["reader"]["method"], i["reader"]["target"]),
+                                  {"area": "router", "input": i, "observed": x, "shape": shape})
+                    oc["ro-writes:interleaved"] += 1
+        else:
+            for shape in ("alone", "mounted"):
+                x = o.get(shape) or {}
+                conc["stress_write_attempts"] += x.get("attempts", 0)
+                conc["stress_reads_served_meanwhile"] += x.get("reads_served", 0)
+                conc["stress_not_answered_READ_ONLY"] += x.get("not_rejected", 0)
+                conc["stress_writes"] += x.get("writes", 0)
+                if x.get("writes", 0):
+                    sig = {"property": "C19", "class": "write-in-read-only", "concurrency": "stress"}
+                    if shape == "mounted":
+                        sig["shape"] = "mounted"
+                    ctx.violation(sig, "read-only router (%s), ONE instance under load: %d of %d write requests sent while %d goroutines looped over safe requests "
+                                  "executed a write on the backend (%s); not answered 400 READ_ONLY: %d, e.g. %s" % (
+                                      shape, x["writes"], x["attempts"], i["readers"], canon(x.get("kinds")), x.get("not_rejected", 0), canon(x.get("first"))[:300]),
+                                  {"area": "router", "input": i, "observed": x, "shape": shape,
+                                   "note": "not deterministic: the interleaving is left to the Go scheduler; rerun if the replay passes"})
+                    oc["ro-writes:stress"] += 1
+    ctx.cov["one_shared_router"] = conc
+    if not ctx.replay_file and (conc["interleaved_write_requests"] == 0 or conc["stress_write_attempts"] == 0):
+        ctx.l2_broken.append({"stream": "router-concurrency-not-run", "detail": "no interleave / stress case was executed: %s" % conc})
+
+    # ---- thorough tier: the shared-router cases once more under the race detector.  A data race whose stacks lie in /repo's
+    # internal/api (the gate, the routers, the handlers) is reported; the harness's own frames (internal/verifharness) do not count.
+    if not ctx.quick and not ctx.replay_file:
+        rb = ctx.ensure_harness(race=True)
+        if rb:
+            sub = [dict(i, writes=min(i.get("writes", 0), 4000)) if i.get("op") == "stress" else i for i in inputs if i.get("op") in ("interleave", "stress")]
+            rin, rout = ctx.path("router.race.in.jsonl"), ctx.path("router.race.impl.jsonl")
+            write_jsonl(rin, sub)
+            p = run_harness(["router", "exec", "-in", rin, "-out", rout], binary=rb, env={"GORACE": "halt_on_error=0 exitcode=0"})
+            reports = [b for b in p.stderr.split("==================") if "WARNING: DATA RACE" in b]
+            in_api = [b for b in reports if re.search(r"/internal/api/(?!backend/)[\w/]*\.go:\d+", b)]
+            ctx.cov["race_detector"] = {"cases": len(sub), "data_race_reports": len(reports), "with_frames_in_internal_api": len(in_api),
+                                        "exit_code": p.returncode}
+            if p.returncode != 0 and not reports:
+                ctx.l2_broken.append({"stream": "router-race-exec", "detail": (p.stdout + p.stderr)[-2000:]})
+            if in_api:
+                files = sorted(set(re.findall(r"/internal/api/([\w/]*\.go):\d+", in_api[0])))
+                ctx.violation({"property": "C19", "class": "data-race-in-gate", "files": files},
+                              "the race detector reports %d data race(s) with frames in internal/api (%s) while one read-only router served write and safe "
+                              "requests at once: the verdict on a request can depend on another request" % (len(in_api), ", ".join(files)),
+                              {"area": "router", "inputs": sub[-1:], "race_report": in_api[0][:4000],
+                               "how": "bin/check C19 thorough (race build of the harness: go build -race, GORACE=halt_on_error=0)"})
+
+    ctx.cov["evaluations"] = len(reqs) + conc["interleaved_write_requests"] + (1 if conc["stress_write_attempts"] else 0)
     ctx.cov["distinct_nontrivial"] = nontrivial
     ctx.cov["rule"] = ("every route chi.Walk reports on the real router (its own method, intact, 6 variants) + every registered pattern x "
                        "(9 chi methods + %d odd method strings) x (1 intact + %d mutated: trailing/double slash, other ledger names, "
                        "%%-encoding, case, dot segments, truncation, extra segment, v1<->v2, prefix dropped, absolute form) x bodies "
                        "(create/script/metadata/revert/bulk/garbage) x override headers x query strings, each run on a readOnly=true and a "
                        "readOnly=false router, each both alone and mounted under an outer chi router as cmd/serve.go does; + every route with a path parameter x "
-                       "10 escaped spellings of that parameter (%%2F, %%2f, %%252F, %%20, %%3A, first byte encoded, …) with the route's own method and body; non-trivial = distinct request that net/http hands to the router (not refused as malformed)") % (
+                       "10 escaped spellings of that parameter (%%2F, %%2f, %%252F, %%20, %%3A, first byte encoded, …) with the route's own method and body; + 'param-static': every path parameter spelled as "
+                       "every static segment of the route table of this run (chi.Walk) and a few more (_search, _query, …), plain and as x%%2F<static>, with the route's own method "
+                       "(write routes: last parameter also with POST/PUT/PATCH/DELETE; thorough: all nine methods); + ONE shared read-only router serving requests at once: every write request "
+                       "with a complete safe request run in between at every touch of its response writer / body (deterministic), and a bounded stress stream (8 reader goroutines x 2 000 / 40 000 writes); non-trivial = distinct request that net/http hands to the router (not refused as malformed)") % (
                            len([m for m in methods_seen if m not in ("GET", "HEAD", "OPTIONS", "POST", "PUT", "PATCH", "DELETE", "CONNECT", "TRACE")]), n - 1)
     ctx.cov["outcomes"] = dict(sorted(oc.items()))
     ctx.cov["control_stream"] = {
